@@ -155,3 +155,40 @@ Theorem C03_flow_gke_new_kek : forall c u fuel e,
   = (let* (kek, kid) := new_kek c u e in Ok (VT [VB kek; VO (OKid kid)])).
 Proof. exact flow_gke_new_kek. Qed.
 Print Assumptions C03_flow_gke_new_kek.
+
+(* ---- tie to the source (group "chain", shared with C02): compute_kdf_context, compute_l1_key, compute_l2_key (the callee of
+   get_kek / new_kek above) ---- *)
+From V Require Import gen.Kernels Proofs.Flow_gkdi_keys_chain.
+Theorem C03_flow_compute_kdf_context : forall c u fuel g l0 l1 l2,
+  run (W c u) fuel k_flow_compute_kdf_context [VO (OUuid g); VI l0; VI l1; VI l2]
+  = (let* b := compute_kdf_context g l0 l1 l2 in Ok (VB b)).
+Proof. exact flow_compute_kdf_context. Qed.
+Print Assumptions C03_flow_compute_kdf_context.
+Theorem C03_flow_compute_l1_key : forall c u fuel sd g l0 rk h,
+  run (W c u) fuel k_flow_compute_l1_key [VB sd; VO (OUuid g); VI l0; VB rk; VO (OHash h)]
+  = (let* b := compute_l1_key c h sd g l0 rk in Ok (VB b)).
+Proof. exact flow_compute_l1_key. Qed.
+Print Assumptions C03_flow_compute_l1_key.
+(* compute_l2_key, against the regenerated kernel the model instantiates (K := res bytes, kdf := kdfK): for every kernel
+   fuel n that suffices and every interpreter fuel above it *)
+Theorem C03_flow_compute_l2_key_kernel : forall c u h l1 l2 e (n fuel : nat), (n < fuel)%nat ->
+  k_compute_l2_key (kdfK c h (gke_rkid e) (gke_l0 e)) n l1 l2 (gke_l1 e) (gke_l2 e) (Ok (gke_l1_key e)) (Ok (gke_l2_key e))
+    <> Raise OutOfFuel ->
+  run (W c u) fuel k_flow_compute_l2_key [VO (OHash h); VI l1; VI l2; VO (OEnv e)]
+  = (let* b := match k_compute_l2_key (kdfK c h (gke_rkid e) (gke_l0 e)) n l1 l2 (gke_l1 e) (gke_l2 e)
+                       (Ok (gke_l1_key e)) (Ok (gke_l2_key e)) with Ok r => r | Raise x => Raise x end in Ok (VB b)).
+Proof. exact flow_l2_kernel. Qed.
+Print Assumptions C03_flow_compute_l2_key_kernel.
+(* against the model function: whenever the model's own fuel (L2_FUEL) suffices, every larger interpreter fuel gives the
+   model's answer *)
+Theorem C03_flow_compute_l2_key : forall c u fuel h l1 l2 e,
+  (L2_FUEL < fuel)%nat -> compute_l2_key c h l1 l2 e <> Raise OutOfFuel ->
+  run (W c u) fuel k_flow_compute_l2_key [VO (OHash h); VI l1; VI l2; VO (OEnv e)]
+  = (let* b := compute_l2_key c h l1 l2 e in Ok (VB b)).
+Proof. exact flow_compute_l2_key. Qed.
+Print Assumptions C03_flow_compute_l2_key.
+(* which it does for every envelope with indices up to 100 (MS-GKDI: up to 31), whatever is requested *)
+Theorem C03_flow_l2_fuel_enough : forall c h l1 l2 e,
+  gke_l1 e <= 100 -> gke_l2 e <= 100 -> compute_l2_key c h l1 l2 e <> Raise OutOfFuel.
+Proof. exact l2_fuel_enough. Qed.
+Print Assumptions C03_flow_l2_fuel_enough.
